@@ -284,6 +284,13 @@ func init() {
 			cfg := c16ParseCfg(k.ReplayStr("kind"), k.ReplayStr("options"))
 			out, err := c16Run(cfg, []byte(k.ReplayStr("input")), "")
 			still := err == nil && string(out) != k.ReplayStr("expected")
+			if k.Trigger == "blockFunctionDecl" { // judged by the syntax check, not by the exact bytes
+				if n, nerr := c16StartNode(); nerr == nil {
+					ok, _, judged := n.parses(out)
+					still = err == nil && judged && !ok
+					n.stop()
+				}
+			}
 			c.R.AddKnown(k.ID, still, k.What, string(out))
 		}
 		// ---- fixed regression corpus: the inputs of the repaired findings K-C16-1..4; must pass ----
@@ -590,8 +597,19 @@ func c16Honoured(c *Ctx, open map[string]bool) {
 
 	// ---------------- js ----------------
 	versions := []int{0, 5, 2015, 2016, 2017, 2018, 2019, 2020, 2021, 2022}
+	node, nodeErr := c16StartNode()
+	if nodeErr != nil {
+		c.R.Note("honoured: node not available (%v): the syntax oracle for js outputs is not evaluated", nodeErr)
+	} else {
+		defer node.stop()
+	}
 	for _, in := range inputs("js", sz(600, 6000), gen.js) {
 		jin := c16ScanJS(in.doc)
+		inParses := false
+		if node != nil && len(in.doc) < 200000 {
+			ok, _, judged := node.parses(in.doc)
+			inParses = ok && judged
+		}
 		type jc struct {
 			keep bool
 			ver  int
@@ -618,6 +636,25 @@ func c16Honoured(c *Ctx, open map[string]bool) {
 				continue
 			}
 			jout := c16ScanJS(out)
+			if inParses {
+				// the guarantees of the other properties under every option combination: the output is a program again
+				res := c16Skip
+				if ok, msg, judged := node.parses(out); judged {
+					res = ""
+					if !ok {
+						res = "the input parses (V8), the output does not: " + msg
+						if open["K-C16-5"] && c16TrigBlockFn(in.doc) && strings.Contains(msg, "has already been declared") {
+							excluded["K-C16-5"]++
+							res = c16Skip
+						}
+					}
+				}
+				opt := "js.*=syntax"
+				if x.keep {
+					opt = "js.KeepVarNames=syntax"
+				}
+				check(cfg, in, out, opt, res)
+			}
 			if x.keep {
 				check(cfg, in, out, "js.KeepVarNames=on", c16OracleKeepVarNames(jin, jout))
 			}
@@ -779,7 +816,7 @@ func c16Honoured(c *Ctx, open map[string]bool) {
 	c.R.Note("honoured: cases judged per option value — %s", strings.Join(parts, " "))
 	for _, want := range []string{"html.KeepComments=on", "html.KeepConditionalComments=on", "html.KeepConditionalComments=alias", "html.KeepComments=nothing-else", "html.KeepConditionalComments=nothing-else", "html.KeepSpecialComments=nothing-else", "html.*=pre-text", "html.KeepSpecialComments=on", "html.KeepDefaultAttrVals=on",
 		"html.KeepDocumentTags=on", "html.KeepEndTags=on", "html.KeepQuotes=on", "html.KeepWhitespace=on", "html.TemplateDelims={{}}", "html.TemplateDelims=<%%>", "html.TemplateDelims=<??>",
-		"js.KeepVarNames=on", "js.Version=5", "js.Version=2015", "js.Version=2016", "js.Version=2019", "js.Version=2020", "js.Version=2022", "js.Precision=0", "css.KeepCSS2=on", "css.Inline=on",
+		"js.KeepVarNames=on", "js.KeepVarNames=syntax", "js.*=syntax", "js.Version=5", "js.Version=2015", "js.Version=2016", "js.Version=2019", "js.Version=2020", "js.Version=2022", "js.Precision=0", "css.KeepCSS2=on", "css.Inline=on",
 		"css.Precision=0", "css.Precision=3", "json.KeepNumbers=on", "json.Precision=0", "json.Precision=1", "json.Precision=17", "svg.KeepComments=on", "svg.Inline=on", "svg.Precision=0", "svg.Precision=3",
 		"xml.KeepWhitespace=on"} {
 		if judged[want] == 0 {
